@@ -675,6 +675,40 @@ def trace_sources(fn, pl, depth=0, seen=None):
     if key in seen:
         return []
     seen = seen | {key}
+    if proj == ['field']:
+        # a component of a tuple / struct value built in this function (`let (new_state, to_wake) = ..`)
+        idx = pl['p'][0].get('i')
+        outf, foundf = [], False
+        for bb, b in enumerate(fn.blocks):
+            if b['cleanup']:
+                continue
+            for s_ in b['stmts']:
+                if s_['k'] != 'assign' or s_['pl']['p'] or s_['pl']['l'] != pl['l']:
+                    continue
+                foundf = True
+                rv = s_['rv']
+                if rv['k'] == 'agg' and isinstance(idx, int) and len(rv.get('ops', [])) > idx:
+                    o = rv['ops'][idx]
+                    if o['k'] == 'const':
+                        outf.append(('const', bb, o))
+                    else:
+                        sub = trace_sources(fn, o['pl'], depth + 1, seen)
+                        if sub is None:
+                            return None
+                        outf += sub
+                elif rv['k'] == 'use' and rv['op']['k'] in ('copy', 'move') and not rv['op']['pl']['p']:
+                    src = dict(rv['op']['pl'])
+                    src['p'] = list(pl['p'])
+                    sub = trace_sources(fn, src, depth + 1, seen)
+                    if sub is None:
+                        return None
+                    outf += sub
+                else:
+                    return None
+            t = b['term']
+            if t and t['k'] == 'call' and not t['dest']['p'] and t['dest']['l'] == pl['l']:
+                return None
+        return outf if foundf else [('place', None, pl)]
     if proj and proj != ['downcast', 'field']:
         return [('place', None, pl)]
     out = []
@@ -721,13 +755,15 @@ def trace_sources(fn, pl, depth=0, seen=None):
                 o = rv['op']
                 if o['k'] == 'const':
                     out.append(('const', bb, o))
-                elif not o['pl']['p'] or [p_['k'] for p_ in o['pl']['p']] == ['downcast', 'field']:
+                elif not o['pl']['p'] or [p_['k'] for p_ in o['pl']['p']] in (['downcast', 'field'], ['field']):
                     sub = trace_sources(fn, o['pl'], depth + 1, seen)
                     if sub is None:
                         return None
                     out += sub
                 else:
                     out.append(('place', bb, o['pl']))
+            elif rv['k'] == 'agg':
+                out.append(('agg', bb, rv))
             else:
                 out.append(('other', bb, rv['k']))
         t = b['term']
